@@ -182,7 +182,20 @@ def run(ctx):
         need = {"std::cmp::PartialEq", "std::cmp::Eq", "std::hash::Hash"}
         ctx.check(need <= derived and not (need & manual), "TABLE", "C04:TABLE:fingerprint:derives", "KeyFingerprint derives PartialEq, Eq, Hash together", "KeyFingerprint's PartialEq / Eq / Hash are not all derived (derived %s, manual %s): equality and hashing may disagree" % (sorted(derived), sorted(manual)), config, None)
         sc = [v for v in fp["variants"] if v["name"] == "Scalar"]
-        ctx.check(bool(sc) and sorted(x["name"] for x in sc[0]["fields"]) == ["tag", "value"], "TABLE", "C04:TABLE:fingerprint:scalar-fields", "scalar fingerprint = {value, tag}",
-                  "scalar fingerprint fields are %s: location / anchor / style must not take part in key identity" % ([x["name"] for x in sc[0]["fields"]] if sc else None), config, None)
+        fnames = {x["name"]: x["ty"] for x in sc[0]["fields"]} if sc else {}
+        foreign = {n_: t_ for n_, t_ in fnames.items() if n_ not in ("value", "tag") and not ("tag" in n_ and "String" in t_)}
+        ctx.check(bool(sc) and {"value", "tag"} <= set(fnames) and not foreign, "TABLE", "C04:TABLE:fingerprint:scalar-fields", "scalar fingerprint = text + tag (kind, and the tag's text): %s" % sorted(fnames),
+                  "scalar fingerprint fields are %s: key identity is the scalar's text and tag only — location / anchor / style must not take part" % sorted(fnames), config, None)
+        # application tags all share one tag kind: the fingerprint must carry their text, or `!foo a` and `!bar a` are one key
+        kf = fx.fn("de::KeyNode::fingerprint")
+        ctx.saw(kf)
+        okct = False
+        for b, i, adt, var, fl, ops, s_ in aggregates(kf):
+            if adt == "de::KeyFingerprint" and var == "Scalar":
+                with kf.deep():
+                    extra = [render(kf.sym_operand(o)) for n_, o in zip(fl, s_["rv"]["ops"]) if n_ not in ("value", "tag")]
+                okct = any("raw_tag" in e for e in extra)
+        ctx.check(okct, "TABLE", "C04:TABLE:fingerprint:application-tag-text", "the fingerprint of a scalar includes the text of an application tag",
+                  "KeyNode::fingerprint builds scalar fingerprints without the tag's text: all application tags share SfTag::Other, so keys that differ only in such a tag are treated as duplicates", config, ctx.where(kf))
         tys = " ".join(x["ty"] for v in fp["variants"] for x in v["fields"])
         ctx.check("Location" not in tys and "ScalarStyle" not in tys, "TABLE", "C04:TABLE:fingerprint:no-location", "no location / style inside fingerprints", "fingerprints carry a location or style", config, None)
